@@ -172,6 +172,7 @@ func depthOf(v any) int {
 }
 
 func (p *c08) RunCase(i int) *core.CaseResult {
+	defer withNoise()()
 	r := &core.CaseResult{}
 	q := c08Queries[i%len(c08Queries)]
 	mix := i >= len(c08Queries)
